@@ -278,7 +278,7 @@ fn run_outer(ctx: &RunCtx, tier: Tier) -> RunOut {
         e.add_client(vec![if with_client == 1 { Src::Scheduled } else { Src::OnDemand }]);
     }
     let opts = SchedOpts::default();
-    let iterations = tier.pick(2, 3);
+    let iterations = tier.pick(3, 3);
     let stop = e.run_with(&opts, 80, |ex, en| {
         let g = ex.w.lock().unwrap();
         let decisions = g.log.iter().filter(|o| matches!(o, Obs::CheckAllowed { .. })).count();
@@ -364,7 +364,7 @@ fn run_reboot(ctx: &RunCtx, tier: Tier) -> RunOut {
 }
 
 fn parts(tier: Tier) -> Vec<PartDef> {
-    let d = tier.pick(2, 3);
+    let d = tier.pick(3, 4);
     vec![
         PartDef::new(
             "outer-wait",
